@@ -395,8 +395,25 @@ class VCRuntime:
         return _Super()
 
     def callm(self, o, name, *args, **kw):
+        import re as _re
+
+        from . import text as _text
+
+        if isinstance(o, _re.Pattern) and args and isinstance(args[0], _text.SText):
+            return _text.regex_call(o, name, args, kw)
         if isinstance(o, (bytes, bytearray, str)) and (any(is_sym(a) or _has_sym(a) for a in args)):
+            if any(isinstance(a, _text.SText) or (isinstance(a, (list, tuple)) and any(isinstance(x, _text.SText) for x in a))
+                   for a in args):
+                if name == "join":
+                    return _text.join(o, list(args[0]))
+                return getattr(_text.SText.of(o), name)(*args, **kw)
             return stubs.lifted_method(o, name, args, kw)
+        if name == "join" and isinstance(o, (bytes, bytearray, str)) and args and not isinstance(args[0], (list, tuple, str, bytes)):
+            # a generator / iterator argument: materialise it to see whether symbolic text flows through
+            items = list(args[0])
+            if any(isinstance(x, _text.SText) for x in items):
+                return _text.join(o, items)
+            return o.join(items)
         if hasattr(o, "sym_callm"):
             return o.sym_callm(name, args, kw)
         u = getattr(ctx(), "unit", None)
